@@ -21,12 +21,14 @@ def main():
     from harness import embed, proj as P, api, graph, corrupt
     import BTrees.check
     fam, impl, is_set = job['fam'], job['impl'], job['is_set']
-    emb = embed.Embedding(fam, 'mid')
+    emb = embed.Embedding(fam, job.get('emb', 'mid'))
     BT, BU, TS, SE = embed.classes(fam, impl)
     cls, leafcls = (TS, SE) if is_set else (BT, BU)
     old = embed.set_sizes([BT, TS], job['leaf'], job['internal'])
     nk = job['nkeys']
-    shift = 1                       # model keys 1..nk are used as 2..nk+1; 1 and nk+2 lie outside
+    # model keys 1..nk are used as 2..nk+1; 1 and nk+2 lie outside.  (shift 0 with the 'ext' embedding of an object-keyed
+    # family: the smallest stored key is None)
+    shift = job.get('shift', 1)
     U = list(range(1, nk + 3))
     rng = random.Random(job.get('seed', 0))
     recs, counts = [], dict(pristine=0, corrupted=0, unconstructible=0, labels={})
